@@ -388,7 +388,12 @@ def encode (c : Cfg) : (t : Ty) → Val t → Bytes
       encode c f p.1 ++ encode c r p.2           -- Save: the fields in order
     else []
 
-/-- `Handler<T>::Read(strm, &v)`: `none` = returned false; otherwise the value and the unread rest -/
+/-- `Handler<T>::Read(strm, &v)`: `none` = returned false; otherwise the value and the unread rest.
+The result is a function of the configuration, the type and the bytes only: the C++ destination object
+`*v` may already hold a value (a reused string, a vector whose `resize` keeps old elements), and
+every handler overwrites it completely (`resize` to the decoded count — also for count 0 —, `clear()`
+before the re-insertion, every member / field read).  The harness checks this on the real code by
+reading every value also into pre-populated objects (ops `rtd` / `decd`). -/
 def decode (c : Cfg) : (t : Ty) → Bytes → Option (Val t × Bytes)
   | .arith _ n, s =>
     if Gen.Ser.genericR true true false c.noSwap = 0 then arithRead c n s
